@@ -597,6 +597,14 @@ impl VxPad2 for i32 { open spec fn ival(self) -> int { self as int } #[verifier:
 impl VxPad2 for u32 { open spec fn ival(self) -> int { self as int } #[verifier::external_body] fn vx_pad2(self) -> (r: String) { format!("{:02}", self) } }
 impl VxPad2 for u8 { open spec fn ival(self) -> int { self as int } #[verifier::external_body] fn vx_pad2(self) -> (r: String) { format!("{:02}", self) } }
 impl VxPad2 for usize { open spec fn ival(self) -> int { self as int } #[verifier::external_body] fn vx_pad2(self) -> (r: String) { format!("{:02}", self) } }
+/// `{:03}` of an integer: zero-padded to width 3 (wider values are printed in full, left uninterpreted)
+pub open spec fn pad3_spec(n: int) -> Seq<char> { if 0 <= n <= 999 { seq![digit_char(n / 100), digit_char((n / 10) % 10), digit_char(n % 10)] } else { dec_other(n) } }
+pub trait VxPad3 { spec fn ival3(self) -> int; fn vx_pad3(self) -> (r: String) ensures r@ == pad3_spec(self.ival3()); }
+impl VxPad3 for i32 { open spec fn ival3(self) -> int { self as int } #[verifier::external_body] fn vx_pad3(self) -> (r: String) { format!("{:03}", self) } }
+impl VxPad3 for u32 { open spec fn ival3(self) -> int { self as int } #[verifier::external_body] fn vx_pad3(self) -> (r: String) { format!("{:03}", self) } }
+impl VxPad3 for u16 { open spec fn ival3(self) -> int { self as int } #[verifier::external_body] fn vx_pad3(self) -> (r: String) { format!("{:03}", self) } }
+impl VxPad3 for u8 { open spec fn ival3(self) -> int { self as int } #[verifier::external_body] fn vx_pad3(self) -> (r: String) { format!("{:03}", self) } }
+impl VxPad3 for usize { open spec fn ival3(self) -> int { self as int } #[verifier::external_body] fn vx_pad3(self) -> (r: String) { format!("{:03}", self) } }
 
 // ---------------------------------------------------------------- f64 text (machine floating point is NOT modelled)
 /// Rust's f64::from_str accepts every string of ASCII digits with at most one '.', containing at least one digit
